@@ -166,7 +166,8 @@ def get_mapped_gp_evaluator_additive(
         arbf = kernel
         ndim, length_scale, scale, order = arbf_args(arbf)
         sinds = np.zeros((0,))
-        ainds = np.arange(N)[arbf.indexes]
+        # plain (non-subset) additive kernels act on all columns
+        ainds = np.arange(N)[getattr(arbf, "indexes", slice(None))]
         inds = ainds.copy()
     else:
         assert isinstance(kernel, DiffProduct)
